@@ -21,7 +21,7 @@ func init() {
 }
 
 func fixture(rel string) []byte {
-	b, err := os.ReadFile(filepath.Join("/repo/internal/file/testdata", rel))
+	b, err := os.ReadFile(filepath.Join(repoDir(), "internal/file/testdata", rel))
 	if err != nil {
 		fmt.Fprintln(os.Stderr, "fixture:", err)
 		os.Exit(1)
